@@ -5,12 +5,16 @@
   * `renderXml`       : output/xml_serializer.rs `XmlSerializer::render_output`
   * `renderAll`, `tokens` : serialize.rs `Xot::tokens` (`render_output(..).unwrap()`)
   * `writeGo`, `serializeWrite`, `serializeString` : `XmlSerializer::serialize` / `serialize_node`
+    in front of a writer that never fails (`Vec<u8>`: the string entry points)
+  * `nodeStepCalls`, `writeGoW`, `serializeWriteW` : the same threaded through a writer that can
+    refuse a `write_all` call (`Model/Writer.lean`): `Err(Error::Io)` at the first refused call
   Nodes are identified by their path of raw child indices from the root of the tree that
   contains the start node (so that ancestors, for `namespaces_in_scope`, are available).
   The format-string literals come from `Generated.lean`.
 -/
 import XotModel.Model.Entity
 import XotModel.Model.Names
+import XotModel.Model.Writer
 
 namespace XotModel
 open Gen
@@ -227,6 +231,39 @@ def bufferToString (r : Str × Outcome XotError Unit) : Outcome XotError Str :=
 def serializeStringWith (esc : Escapers) (env : Env) (pr : TokenParams) (t : Tree) (start : Path) :
     Outcome XotError Str :=
   bufferToString (serializeWriteWith esc env pr t start)
+
+/-! ### The same in front of a writer that can fail (`Model/Writer.lean`) -/
+
+/-- The `write_all` calls of `serialize_node` once the token is rendered, in order:
+    `if data.space { w.write_all(b" ")?; }  w.write_all(data.text.as_bytes())?;`
+    (the text call is made even when the text is empty). -/
+def tokenCalls (k : OutputToken) : List Str := (if k.space then [tokenSpace] else []) ++ [k.text]
+
+/-- One `self.serialize_node(w, node, output)?` of `XmlSerializer::serialize`:
+    `let data = self.render_output(node, &output)?;` comes first — a rendering error is returned before
+    anything of this event reaches the writer — then the calls of `tokenCalls`. -/
+def nodeStepCalls (esc : Escapers) (env : Env) (pr : TokenParams) (t : Tree) (s : FStack)
+    (po : Path × Output) : List Str × Outcome XotError FStack :=
+  match renderAtWith esc env pr t s po.1 po.2 with
+  | .ok (s', tok) => (tokenCalls tok, .ok s')
+  | .err e => ([], .err e)
+  | .panic => ([], .panic)
+
+/-- `XmlSerializer::serialize(w, outputs)` with a writer `P` that has accepted the calls `hist`:
+    bytes the writer holds at the end, and how the loop ended (`Io` at the first refused call). -/
+def writeGoW (P : WriterPolicy) (esc : Escapers) (env : Env) (pr : TokenParams) (t : Tree) :
+    List Str → FStack → List (Path × Output) → Str × Outcome XotError Unit :=
+  writeLoopW P (nodeStepCalls esc env pr t)
+
+/-- The calls `XmlSerializer::serialize` makes when none is refused, and how it ends. -/
+def writeGoCalls (esc : Escapers) (env : Env) (pr : TokenParams) (t : Tree) :
+    FStack → List (Path × Output) → List Str × Outcome XotError Unit :=
+  callsLoop (nodeStepCalls esc env pr t)
+
+/-- `Xot::write(node, w)` / `serialize_xml_write` with only token parameters, any writer. -/
+def serializeWriteW (P : WriterPolicy) (esc : Escapers) (env : Env) (pr : TokenParams) (t : Tree)
+    (start : Path) : Str × Outcome XotError Unit :=
+  writeGoW P esc env pr t [] (initStack t start) (genOutputs t start)
 
 abbrev renderXml := renderXmlWith xmlEscapers
 abbrev renderAt := renderAtWith xmlEscapers
